@@ -212,6 +212,15 @@ func Run(ctx context.Context, stmt ast.Stmt, setup Setup) (obs Obs, id int64) {
 	})
 	e.Define("pp", func(x interface{}) interface{} { add(x); panic("host function panics") })
 	e.Define("pa", func(ptr interface{}) interface{} { add(int64(77)); return nil })
+	e.Define("ch", func(xs []interface{}) interface{} { // a closed, buffered channel holding the elements of a list
+		c := make(chan interface{}, len(xs)+1)
+		for _, x := range xs {
+			c <- x
+		}
+		close(c)
+		return c
+	})
+	e.Define("pe", func(cb func(int64)) { cb(1); cb(2) }) // a callback type without results
 	e.Define("harr", [3]int64{1, 2, 3}) // an unaddressable Go array: slicing it panics inside reflect
 	if setup != nil {
 		setup(e)
@@ -238,7 +247,7 @@ func Run(ctx context.Context, stmt ast.Stmt, setup Setup) (obs Obs, id int64) {
 	obs.Log = log
 	mu.Unlock()
 	for _, s := range e.GetValueSymbols() {
-		if s == "p" || s == "pv" || s == "pn" || s == "pa" || s == "pp" || s == "harr" {
+		if s == "p" || s == "pv" || s == "pn" || s == "pa" || s == "pp" || s == "ch" || s == "pe" || s == "harr" {
 			continue
 		}
 		v, gerr := e.Get(s)
